@@ -48,13 +48,51 @@ Definition edge_prim_text (src : nat) (p : prim) (label : list N) (cont : bool) 
   idtext src ++ s_arrow ++ [34%N] ++ dot_escape (prim_text p) ++ [58%N] ++ prim_type p ++ [34%N]
   ++ [32%N] ++ s_label ++ label ++ [34; 32]%N ++ endmark cont ++ [93; 10]%N.
 
+(* an output statement: its text, tagged with the object number when it is the node statement of an object *)
+Definition stmt := (option nat * list N)%type.
+Definition wacc := (list stmt * list nat)%type.                      (* statements written so far, processed set *)
+Definition wstate := (wacc * (list N * list N))%type.               (* ... and name, attrs of the object being exported *)
+
+Definition put (acc : wacc) (s : stmt) : wacc := (fst acc ++ [s], snd acc).
+
+(* one member of a list that is not all primitives; rec = _export on an object number *)
+Definition items_step (rec : nat -> wacc -> wacc) (k : nat) (a : attr) (s : wacc * nat) (i : item) : wacc * nat :=
+  let '(acc, idx) := s in
+  let label := a_name a ++ [58%N] ++ dec_N (N.of_nat idx) in
+  match i with
+  | INone => (acc, S idx)
+  | IPrim p => (put acc (None, edge_prim_text k p label (a_cont a)), S idx)
+  | IObj j => (rec j (put acc (None, edge_text k (idtext j) label (a_cont a))), S idx)
+  end.
+
+(* one attribute of object k *)
+Definition attr_step (rec : nat -> wacc -> wacc) (k : nat) (s : wstate) (a : attr) : wstate :=
+  let '(acc, (name, attrs)) := s in
+  match a_val a with
+  | VNone => s
+  | VList l =>
+      if a_list a then
+        if forallb is_prim_item l
+        then (acc, (name, attrs ++ required (a_req a) ++ a_name a ++ [58;108;105;115;116;61;91]%N
+                          ++ join [44%N] (map (fun i => match i with IPrim p => prim_repr p | _ => [] end) l) ++ [93; 92; 108]%N))
+        else (fst (fold_left (items_step rec k a) l (acc, O)), (name, attrs))
+      else s
+  | VPrim p =>
+      if a_list a then s else
+      if str_eqb (a_name a) name_attr then (acc, (dot_escape (prim_text p), attrs))
+      else (acc, (name, attrs ++ required (a_req a) ++ a_name a ++ [58%N] ++ prim_type p ++ [61%N] ++ prim_repr p ++ [92; 108]%N))
+  | VObj j =>
+      if a_list a then s else
+      (rec j (put acc (None, edge_text k (idtext j) (a_name a) (a_cont a))), (name, attrs))
+  end.
+
+Definition node_text (k : nat) (name cls attrs : list N) : list N :=
+  idtext k ++ s_label ++ [123%N] ++ name ++ [58%N] ++ cls ++ [124%N] ++ attrs ++ [125; 34; 93; 10]%N.
+
 Section Walk.
   Variable st : list obj.
 
-  (* state while one object is exported: text written so far, processed set, name, attrs *)
-  Definition wstate := ((list N * list nat) * (list N * list N))%type.
-
-  Fixpoint export (fuel : nat) (k : nat) (acc : list N * list nat) : list N * list nat :=
+  Fixpoint export (fuel : nat) (k : nat) (acc : wacc) : wacc :=
     match fuel with
     | O => acc
     | S f =>
@@ -62,38 +100,48 @@ Section Walk.
       match nth_error st k with
       | None => acc
       | Some o =>
-        let items (a : attr) (s : (list N * list nat) * nat) (i : item) : (list N * list nat) * nat :=
-          let '(acc, idx) := s in
-          let label := a_name a ++ [58%N] ++ dec_N (N.of_nat idx) in
-          match i with
-          | INone => (acc, S idx)
-          | IPrim p => ((fst acc ++ edge_prim_text k p label (a_cont a), snd acc), S idx)
-          | IObj j => (export f j (fst acc ++ edge_text k (idtext j) label (a_cont a), snd acc), S idx)
-          end in
-        let step (s : wstate) (a : attr) : wstate :=
-          let '(acc, (name, attrs)) := s in
-          match a_val a with
-          | VNone => s
-          | VList l =>
-              if a_list a then
-                if forallb is_prim_item l
-                then (acc, (name, attrs ++ required (a_req a) ++ a_name a ++ [58;108;105;115;116;61;91]%N
-                                  ++ join [44%N] (map (fun i => match i with IPrim p => prim_repr p | _ => [] end) l) ++ [93; 92; 108]%N))
-                else (fst (fold_left (items a) l (acc, O)), (name, attrs))
-              else s
-          | VPrim p =>
-              if a_list a then s else
-              if str_eqb (a_name a) name_attr then (acc, (dot_escape (prim_text p), attrs))
-              else (acc, (name, attrs ++ required (a_req a) ++ a_name a ++ [58%N] ++ prim_type p ++ [61%N] ++ prim_repr p ++ [92; 108]%N))
-          | VObj j =>
-              if a_list a then s else
-              (export f j (fst acc ++ edge_text k (idtext j) (a_name a) (a_cont a), snd acc), (name, attrs))
-          end in
-        let '(acc1, (name, attrs)) := fold_left step (o_attrs o) ((fst acc, k :: snd acc), ([], [])) in
-        (fst acc1 ++ idtext k ++ s_label ++ [123%N] ++ name ++ [58%N] ++ o_cls o ++ [124%N] ++ attrs ++ [125; 34; 93; 10]%N, snd acc1)
+        let '(acc1, (name, attrs)) := fold_left (attr_step (export f) k) (o_attrs o) ((fst acc, k :: snd acc), ([], [])) in
+        put acc1 (Some k, node_text k name (o_cls o) attrs)
       end
     end.
 
+  Definition export_stmts (root : nat) : list stmt := fst (export (S (length st)) root ([], [])).
+  Definition node_ids (l : list stmt) : list nat :=
+    flat_map (fun s => match fst s with Some k => [k] | None => [] end) l.
+
   Definition export_doc (header : list N) (root : nat) : list N :=
-    header ++ fst (export (S (length st)) root ([], [])) ++ [10; 125; 10]%N.
+    header ++ flat_map snd (export_stmts root) ++ [10; 125; 10]%N.
 End Walk.
+
+(* ---- what "reachable through attributes" means for a dumped store, and the traversal reduced to object numbers *)
+Definition item_objs (l : list item) : list nat := flat_map (fun i => match i with IObj j => [j] | _ => [] end) l.
+Definition attr_targets (a : attr) : list nat :=
+  match a_val a with
+  | VObj j => if a_list a then [] else [j]
+  | VList l => if a_list a then item_objs l else []
+  | _ => []
+  end.
+Definition targets (o : obj) : list nat := flat_map attr_targets (o_attrs o).
+
+Definition edge (st : list obj) (k j : nat) : Prop :=
+  exists o, nth_error st k = Some o /\ In j (targets o) /\ j < length st.
+Inductive reach (st : list obj) (root : nat) : nat -> Prop :=
+| reach_root : reach st root root
+| reach_step j l : reach st root j -> edge st j l -> reach st root l.
+
+Section Visit.
+  Variable st : list obj.
+  (* (processed set, objects whose node statement is written, in order) *)
+  Fixpoint visit (fuel : nat) (k : nat) (sn : list nat * list nat) : list nat * list nat :=
+    match fuel with
+    | O => sn
+    | S f =>
+      if existsb (Nat.eqb k) (fst sn) then sn else
+      match nth_error st k with
+      | None => sn
+      | Some o =>
+        let sn' := fold_left (fun sn j => visit f j sn) (targets o) (k :: fst sn, snd sn) in
+        (fst sn', snd sn' ++ [k])
+      end
+    end.
+End Visit.
